@@ -81,6 +81,39 @@ def probe_norm(name, D, N, dt, seed, steps=1, forced=None):
     return res
 
 
+def probe_general_family(cls, D, N, dt, seed):
+    """the general / normalized / difficulty linear steppers with DISSIPATIVE coefficients (a₂ > 0 diffusion, a₄ < 0
+    hyper-diffusion, any advection / dispersion): the norm of a white-noise state does not grow and every non-constant
+    Fourier mode shrinks strictly"""
+    import jax.numpy as jnp
+    import exponax as ex
+    from exponax import spectral as sp
+    gen = ex.stepper.generic
+    rng = np.random.default_rng(seed)
+    a1, a2, a3, a4 = float(rng.uniform(-1, 1)), float(rng.uniform(0.01, 0.1)), float(rng.uniform(-0.05, 0.05)), -float(rng.uniform(1e-4, 1e-3))
+    co = (0.0, a1, a2, a3, a4)
+    L = float(rng.choice([1.0, 2 * np.pi]))
+    if cls == "GeneralLinearStepper":
+        st = gen.GeneralLinearStepper(D, L, N, dt, linear_coefficients=co)
+    elif cls == "NormalizedLinearStepper":
+        st = gen.NormalizedLinearStepper(D, N, normalized_linear_coefficients=tuple(c * dt / L ** j for j, c in enumerate(co)))
+    else:
+        al = [c * dt / L ** j for j, c in enumerate(co)]
+        st = gen.DifficultyLinearStepper(D, N, linear_difficulties=tuple(a if j == 0 else a * N ** j * 2 ** (j - 1) * D for j, a in enumerate(al)))
+    u = rng.normal(size=(1,) + (N,) * D)
+    v = np.asarray(st(jnp.asarray(u)))
+    ratio = float(np.linalg.norm(v) / np.linalg.norm(u))
+    uh, vh = np.asarray(sp.fft(jnp.asarray(u)))[0], np.asarray(sp.fft(jnp.asarray(v)))[0]
+    k = np.asarray(sp.build_wavenumbers(D, N))
+    nonconst = (np.abs(k).sum(axis=0) > 0) & (np.abs(uh) > 1e-9 * np.max(np.abs(uh)))
+    if N % 2 == 0:
+        nonconst &= np.all(np.abs(k) < N // 2, axis=0)     # the c2r transform treats the Nyquist entries separately
+    gain = np.abs(vh[nonconst]) / np.abs(uh[nonconst])
+    worst = float(np.max(gain)) if gain.size else 0.0
+    return {"ok": bool(ratio <= 1 + 1e-12 and worst < 1 - 1e-12), "norm_ratio": ratio, "max_mode_gain": worst,
+            "undamped_modes": int(np.sum(gain >= 1 - 1e-12)), "coefficients": co, "L": L}
+
+
 def probe_norm_anisotropic(name, D, N, dt, seed, kind=None):
     """strongly anisotropic SPD diffusivity matrices (large off-diagonal entries): still PSD, so still no amplification.
     kind 0 / 1: equicorrelated with rho = 0.9 / -0.85; kind 2: rank-one-dominated v vᵀ + εI with a NEGATIVE ROW SUM
@@ -161,6 +194,14 @@ def oracle(ctx, deep):
                 if not r["ok"]:
                     fails.append({"key": f"C11:norm-anisotropic:{name}", "what": f"{name} with a strongly anisotropic SPD diffusivity (D={D}, N={N}, dt={dt}) amplifies white noise: {r}"[:400],
                                   "probe": "norm_anisotropic", "args": {"name": name, "D": D, "N": N, "dt": dt, "seed": ctx.seed + D + N, "kind": kind}, "observed": r})
+    for cls in ("GeneralLinearStepper", "NormalizedLinearStepper", "DifficultyLinearStepper"):
+        for (D, N) in ([(2, 7), (2, 8), (3, 5)] if not deep else [(1, 9), (2, 6), (2, 7), (2, 8), (2, 9), (3, 4), (3, 5)]):
+            r = probe_general_family(cls, D, N, 0.05, ctx.seed + D + N)
+            ctx.count(("oracle_general_family", cls, D, N))
+            if not r["ok"]:
+                fails.append({"key": f"C11:general-family:{cls}", "what": f"{cls} with dissipative coefficients (D={D}, N={N}): {r}"[:400],
+                              "probe": "general_family", "args": {"cls": cls, "D": D, "N": N, "dt": 0.05, "seed": ctx.seed + D + N}, "observed": r})
+                break
     for (D, N), L in [(c_, L_) for c_ in cases[:5] for L_ in (None, 10.0, 50.0)]:
         r = probe_wave_energy(D, N, 0.7, ctx.seed, L)
         ctx.count(("oracle_wave_energy", D, N, L))
@@ -176,4 +217,4 @@ def oracle(ctx, deep):
 
 
 def replay(probe, args):
-    return {"norm": probe_norm, "wave_energy": probe_wave_energy, "norm_anisotropic": probe_norm_anisotropic}[probe](**args)
+    return {"norm": probe_norm, "wave_energy": probe_wave_energy, "norm_anisotropic": probe_norm_anisotropic, "general_family": probe_general_family}[probe](**args)
